@@ -50,6 +50,8 @@ type scoreModel struct {
 	rank   map[string]map[string]int          // metric -> effective value -> rank in the code's severity row
 	maxes  map[string]map[string][]map[string]string // EQ -> level -> decoded highest-severity vectors
 	depth1 map[string]map[string]*big.Rat     // EQ -> level -> depth+1
+	roundTree *Ex
+	roundFn   *ast.FuncDecl
 }
 
 func isU8Assign(p *Pkg, s ast.Stmt) bool {
